@@ -646,10 +646,11 @@ static int t_mpz_dbl (const char *f, int budget)
       else
         {
           if (it % 2) { mpz_set (z, want); if (it % 6 == 1) mpz_add_ui (z, z, 1); if (it % 6 == 3) mpz_sub_ui (z, z, 1); }
-          int got = mpz_cmp_d (z, d), c = mpz_cmp (z, want), w;
+          int ab = !strcmp (f, "mpz_cmpabs_d");
+          int got = ab ? mpz_cmpabs_d (z, d) : mpz_cmp_d (z, d), c = ab ? mpz_cmpabs (z, want) : mpz_cmp (z, want), w;
           /* z vs d: z vs trunc(d) decides unless they are equal and d has a fraction */
           int frac = (ex < 53) && (ex <= 0 ? d != 0 : (m & ((1UL << (53 - ex)) - 1)) != 0);
-          w = c ? c : (frac ? (d > 0 ? -1 : 1) : 0);
+          w = c ? c : (frac ? ((d > 0 || ab) ? -1 : 1) : 0);
           if ((got > 0) - (got < 0) != (w > 0) - (w < 0)) { failed (f); printf (" d=%a", d); show_z ("z", z); printf (" got=%d want sign %d\n", got, w); return 1; }
         }
       mpz_clear (z); mpz_clear (want);
@@ -1115,7 +1116,7 @@ int main (int argc, char **argv)
   if (!strcmp (f, "mpz_cmp") || !strcmp (f, "mpz_cmpabs")) return t_mpz_cmp (f, budget);
   if (!strcmp (f, "mpz_tstbit") || !strcmp (f, "mpz_scan0") || !strcmp (f, "mpz_scan1")) return t_mpz_bits (f, budget);
   if (!strcmp (f, "extract_double")) return t_extract_double (f, budget);
-  if (!strcmp (f, "mpz_set_d") || !strcmp (f, "mpz_cmp_d")) return t_mpz_dbl (f, budget);
+  if (!strcmp (f, "mpz_set_d") || !strcmp (f, "mpz_cmp_d") || !strcmp (f, "mpz_cmpabs_d")) return t_mpz_dbl (f, budget);
   if (!strcmp (f, "mpz_setbit") || !strcmp (f, "mpz_clrbit") || !strcmp (f, "mpz_combit") || !strcmp (f, "mpz_and") || !strcmp (f, "mpz_ior") || !strcmp (f, "mpz_xor")) return t_mpz_bitops (f, budget);
   if ((!strncmp (f, "mpz_fdiv", 8) || !strncmp (f, "mpz_cdiv", 8) || !strncmp (f, "mpz_tdiv", 8)) && strlen (f) >= 2 && !strcmp (f + strlen (f) - 2, "ui")) return t_mpz_div_ui (f, budget);
   if (!strncmp (f, "mpz_fdiv", 8) || !strncmp (f, "mpz_cdiv", 8) || !strcmp (f, "mpz_mod")) return t_mpz_div (f, budget);
